@@ -133,8 +133,40 @@ def gen_tree_vs_grid(rng):
     return {"recipe": {"sources": srcs, "generators": {}, "steps": steps}, "targets": ["v2", "v1"], "history": hist}
 
 
+def gen_reduction_twins(rng):
+    """Structured scenario: the same reduction of the same many-block input under two tree fan-ins, both
+    collections alive in one process (name-keyed dedup must tell their tree nodes apart)."""
+    nd = rng.choice([1, 2])
+    # (a tree's shape only matters with enough blocks: 12-24 along the reduced axis)
+    shape = [rng.choice([12, 16, 24])] + ([3] if nd == 2 else [])
+    srcs = {"s0": {"shape": shape, "dtype": rng.choice(["f8", "i8"]), "offset": rng.randint(0, 9), "kind": "ndarray"}}
+    steps = [{"op": "from_array", "in": [], "args": {"src": "s0", "chunks": [1] + shape[1:]}, "out": "v0"}]
+    f = rng.choice(["sum", "max", "min", "any"])
+    axis = 0 if nd == 2 else rng.choice([None, 0])
+    ses = rng.sample([2, 3, 4, 8, None], 2)
+    for i, se in enumerate(ses):
+        a = {"f": f, "axis": axis}
+        if se is not None:
+            a["split_every"] = se
+        steps.append({"op": "reduction", "in": ["v0"], "args": a, "out": f"v{i + 1}"})
+    order = ["v1", "v2"]
+    rng.shuffle(order)
+    hist = []
+    for v in order:
+        hist.append({"ev": "build", "var": v})
+        if rng.random() < 0.8:
+            hist.append(dict({"ev": rng.choice(["compute", "compute", "graph"]), "var": v}, **H.rand_sched(rng)))
+    for v in order[::-1]:
+        hist.append(dict({"ev": "compute", "var": v}, **H.rand_sched(rng)))
+    if rng.random() < 0.5:
+        hist.append(dict({"ev": "compute_many", "vars": order}, **H.rand_sched(rng)))
+    return {"scribble": rng.random() < 0.5, "recipe": {"sources": srcs, "generators": {}, "steps": steps}, "targets": ["v1", "v2"], "history": hist}
+
+
 def gen(rng, tier):
     r_ = rng.random()
+    if r_ > 0.97:
+        return gen_reduction_twins(rng)
     if r_ < 0.12:
         return gen_layout_drift(rng)
     if r_ < 0.16:
